@@ -56,6 +56,7 @@ type Result struct {
 	Data         *sjson.Value
 	Errors       []ErrExp
 	Invocations  []string // univ.Key strings of resolver invocations, sorted
+	FaultPoints  []string // Invocations plus invocations of fallible bound methods
 	DirCalls     []string
 	Stats        Stats
 	// MutationOrder: root field response keys in required serial order (mutations only)
@@ -437,17 +438,21 @@ func (x *exec) field(objType *ast.Definition, obj *univ.Val, fdef *ast.FieldDefi
 	}
 
 	fault, val, isResolver := x.env.Eval(x.plan, objType.Name, obj.Vid, fdef.Name, argsJSON)
+	k := univ.Key{Object: objType.Name, Vid: obj.Vid, Field: fdef.Name, Args: argsJSON}
 	if isResolver {
-		k := univ.Key{Object: objType.Name, Vid: obj.Vid, Field: fdef.Name, Args: argsJSON}
 		x.res.Invocations = append(x.res.Invocations, k.String())
-		switch fault {
-		case univ.FaultError:
-			x.addErr(path, "resolver:"+univ.ErrText(k))
-			return fail()
-		case univ.FaultPanic:
-			x.addErr(path, "panic:"+univ.PanicText(k))
-			return fail()
-		}
+		x.res.FaultPoints = append(x.res.FaultPoints, k.String())
+	} else if x.env.CanFail(objType.Name, fdef.Name) {
+		x.res.FaultPoints = append(x.res.FaultPoints, k.String())
+	}
+	// resolvers and context methods of bound models can fail
+	switch fault {
+	case univ.FaultError:
+		x.addErr(path, "resolver:"+univ.ErrText(k))
+		return fail()
+	case univ.FaultPanic:
+		x.addErr(path, "panic:"+univ.PanicText(k))
+		return fail()
 	}
 	var sel ast.SelectionSet
 	for _, n := range nodes {
